@@ -114,11 +114,15 @@ fn generated_case(ctx: &Ctx, ch: &mut Ch) -> Outcome {
         ctx.class("skipped: longer than 4000 bytes");
         return Ok(());
     }
-    let s = if ch.chance(1, 3) {
-        let mut erased = 0;
-        prog::erase(&p.s, ch, &mut erased).flatten()
-    } else {
-        p.s.clone()
+    let s = match ch.pick(6) {
+        0 | 1 => {
+            let mut erased = 0;
+            prog::erase(&p.s, ch, &mut erased).flatten()
+        }
+        // Perturbed programs: most are rejected; the accepted ones are in the property's domain.
+        2 => crate::gens::mutate::perturb(&p.s, ch).0.flatten(),
+        3 => crate::gens::mutate::swap_variable(&p.s, ch).unwrap_or_else(|| p.s.clone()).flatten(),
+        _ => p.s.clone(),
     };
     let text = sast::print_plain(&s);
     check_text(ctx, &text, crate::checks::c02::step_budget(ctx.tier))
@@ -137,7 +141,7 @@ pub fn def(tier: Tier) -> CheckDef {
     CheckDef {
         id: "C04",
         level: "exploration",
-        rule: "type-directed generated programs (plain and annotation-erased) over result types int, bool, type, non-dependent and dependent function types, types produced by type-level functions and conditionals, and types mentioning definition groups; each accepted program is run with gram's `step` loop and the value v and the reported type T are compared: by shape (int => literal, bool => true/false, function type => function with the same implicit flag, type => a type former) and by the independent checker (R-core infers a type for v, which must be convertible with T); non-trivial = T is not a bare base type, or evaluation took >= 5 steps; distinct by text",
+        rule: "type-directed generated programs (plain, annotation-erased, and perturbed by one type-breaking mutation or variable swap - the accepted ones count) over result types int, bool, type, non-dependent and dependent function types, types produced by type-level functions and conditionals, and types mentioning definition groups; each accepted program is run with gram's `step` loop and the value v and the reported type T are compared: by shape (int => literal, bool => true/false, function type => function with the same implicit flag, type => a type former) and by the independent checker (R-core infers a type for v, which must be convertible with T); non-trivial = T is not a bare base type, or evaluation took >= 5 steps; distinct by text",
         assumptions: vec!["values or types that still contain unresolved holes are outside the explicit checker's domain (counted, not judged)"],
         idle_limit_s: 180,
         needs_cli: false,
